@@ -141,6 +141,8 @@ def run(ctx):
                 add([e for e in reader_events(der, lf + body) if e["fn"] == "read_length"])
     # (B) C->S encoders
     ints = list(range(0, 300)) + [2 ** k + d for k in range(8, 531, 1 if not quick else 7) for d in (-1, 0, 1)]
+    # contents of 127 / 128 and 255 / 256 octets (the sign octet can push the content across the short/long length-form boundary)
+    ints += [2 ** k + d for k in (1007, 1008, 1015, 1016, 1023, 1024, 2031, 2032, 2039, 2040, 2047, 2048) for d in (-1, 0, 1)]
     for v in ints:
         events.append({"fn": "encode_integer", "v": n2l(v),
                        "out": outcome(lambda: der.encode_integer(v), lambda x: {"v": b2l(x)})})
